@@ -39,6 +39,27 @@ def nonneg_model(n_dims):
     )
 
 
+def _snap_slivers(spec):
+    """A fixed Weibull location 0 < gamma < 0.25 leaves a sliver [0, gamma) without density at the left end of virocon's
+    integration interval [0, x]; for beta <= 1 the density jumps at gamma. QUADPACK has no node inside a sliver of
+    a fraction of a percent of the interval, integrates as if the density continued and reports a small error
+    (observed 1.7e-5 for gamma = 6e-5): that is the stated 'quadrature error' of the property, not a defect, so
+    the quadrature-compared parts use gamma = 0 or gamma >= 0.25 (dependent locations keep their full range)."""
+    out = []
+    for lvl in spec:
+        lvl = dict(lvl)
+        if lvl["family"] == "Weibull":
+            for key in ("params", "fixed"):
+                if lvl.get(key) and 0 < lvl[key].get("gamma", 0) < 0.25:
+                    lvl[key] = dict(lvl[key], gamma=0.0)
+        out.append(lvl)
+    return out
+
+
+def quad_model(n_dims):
+    return nonneg_model(n_dims).map(_snap_slivers)
+
+
 def is_nontrivial(spec):
     rng = refmodel.approx_range(spec)
     return max(refmodel.dependence_variation(spec, i, rng) for i in range(len(spec))) >= 0.1
@@ -103,6 +124,9 @@ def check_pdf(case, ctx):
             ctx.violation(f"pdf:form_differs:{name}", f"{name} -> {np.asarray(g).tolist()} but array -> {exp.tolist()}")
     # integer-valued points (a list of ints is array_like too)
     Xi = np.maximum(np.round(X), 1.0)
+    if not np.all(Xi < 2.0**62):  # beyond int64: the cast itself would wrap (harness, not virocon)
+        ctx.cls("int_forms_skipped:beyond_int64")
+        return
     ok1, gi = ctx.call("pdf:int_valued_float", model.pdf, Xi.astype(float))
     for name, val in (("int_ndarray", Xi.astype(int)), ("int_row_list", [int(v) for v in Xi[0]])):
         ok2, gj = ctx.call(f"pdf:form:{name}", model.pdf, val)
@@ -235,7 +259,7 @@ def check_cdf(case, ctx):
 def strat_cdf2(tier):
     return st.builds(
         lambda m, u, as_list: dict(model=m, u=u, as_list=as_list),
-        nonneg_model((2,)),
+        quad_model((2,)),
         # (not closer to the support boundary than the 3 % quantile: virocon integrates from 0, and QUADPACK cannot see a
         # sliver of support that is a fraction of a percent of the integration interval)
         st.lists(st.one_of(st.floats(0.05, 0.95), st.sampled_from([0.03, 0.97, 0.999])), min_size=2, max_size=2),
@@ -246,7 +270,7 @@ def strat_cdf2(tier):
 def strat_cdf3(tier):
     return st.builds(
         lambda m, u: dict(model=m, u=u, as_list=False),
-        nonneg_model((3,)),
+        quad_model((3,)),
         st.lists(st.floats(0.2, 0.9), min_size=3, max_size=3),
     )
 
@@ -334,7 +358,7 @@ def strat_marg(tier):
     dims = (2, 2, 2, 3) if tier == "thorough" else (2,)
     return st.builds(
         lambda m, dim, fr, ps, seed, wi: dict(model=m, dim=dim, fracs=fr, ps=ps, seed=seed, with_int=wi),
-        nonneg_model(dims),
+        quad_model(dims),
         st.sampled_from([1, 1, 1, 0, 2]),
         st.lists(st.floats(0.05, 0.9), min_size=2, max_size=2, unique=True),
         st.lists(st.floats(0.002, 0.998), min_size=1, max_size=3, unique=True),
@@ -380,7 +404,7 @@ def check_marg3d(case, ctx):
 def strat_marg3d(tier):
     return st.builds(
         lambda m, dim, fr: dict(model=m, dim=dim, frac=fr),
-        nonneg_model((3,)),
+        quad_model((3,)),
         st.sampled_from([1, 1, 2]),
         st.floats(0.15, 0.7),
     )
